@@ -42,7 +42,7 @@ FAULTS = ['missing-file', 'few-events', 'fraction-neg', 'fraction-big', 'fractio
           'sample-other-amp-2nd', 'sample-other-voltage-2nd']
 
 
-def build_world(F, rng, base):
+def build_world(F, rng, base, int_ids=False):
     E = F.excel_ui
     os.makedirs(base, exist_ok=True)
     i0 = dict(ID='I0', fsc='FSC-H', ssc='SSC-H', fl=['FL1-H', 'FL2-H'], time='Time')
@@ -64,6 +64,11 @@ def build_world(F, rng, base):
         dict(ID='Bnomef', iid='I0', fp='b_good.fcs', m1=None, m2=None, gf=0.5),
         dict(ID='Bpartial', iid='I0', fp='b_good.fcs', m1=mv, m2=None, gf=0.5),
     ]
+    # beads identified by numbers (1, 2, ...) instead of names: a Samples column holding numbers and blanks is read as
+    # floating point by the spreadsheet reader (1 becomes 1.0) and must still address its beads row
+    idmap = {r['ID']: (k + 1 if int_ids else r['ID']) for k, r in enumerate(rows)}
+    for r in rows:
+        r['ID'] = idmap[r['ID']]
     btab = pd.DataFrame([{'ID': r['ID'], 'Instrument ID': r['iid'], 'File Path': r['fp'], 'FL1-H MEF Values': r['m1'],
                           'FL2-H MEF Values': r['m2'], 'Gate Fraction': r['gf'], 'Clustering Channels': 'FL1-H'} for r in rows]).set_index('ID')
     np.random.seed(1234)
@@ -85,7 +90,7 @@ def build_world(F, rng, base):
                dict(fp=files[1], u1='RFI', u2='MEF', gf=0.85, beads='Bgood'),
                dict(fp=files[2], u1='MEF', u2=None, gf=0.3, beads='Bpartial'),
                dict(fp=files[0], u1='Channel', u2='rfi', gf=1.0, beads=None)]
-    return dict(itab=itab, btab=btab, beads_samples=bs, fx=fx, mo=mo, healthy=healthy, base=base)
+    return dict(itab=itab, btab=btab, beads_samples=bs, fx=fx, mo=mo, healthy=healthy, base=base, idmap=idmap)
 
 
 # spellings of a path at which no FCS file can be opened: a missing name, a missing folder, an existing folder, a
@@ -131,8 +136,9 @@ def apply_fault(h, kind, variant=0):
     return r
 
 
-def table(rows):
-    return pd.DataFrame([{'ID': 'R%d' % i, 'Instrument ID': r.get('iid', 'I0'), 'Beads ID': r['beads'], 'File Path': r['fp'],
+def table(rows, idmap=None):
+    idmap = idmap or {}
+    return pd.DataFrame([{'ID': 'R%d' % i, 'Instrument ID': r.get('iid', 'I0'), 'Beads ID': idmap.get(r['beads'], r['beads']), 'File Path': r['fp'],
                           'FL1-H Units': r['u1'], 'FL2-H Units': r['u2'], 'Gate Fraction': r['gf']}
                          for i, r in enumerate(rows)],
                         columns=['ID', 'Instrument ID', 'Beads ID', 'File Path', 'FL1-H Units', 'FL2-H Units', 'Gate Fraction']).set_index('ID')
@@ -148,16 +154,20 @@ def run(ctx):
     base = W['base']
     single = {}
 
-    def run_table(stab):
+    W2 = build_world(F, np.random.default_rng([ctx.seed, 11, 5]), os.path.join(ctx.tmpdir, 'w2'), int_ids=True)
+
+    def run_table(stab, Wx=None):
+        Wx = Wx or W
         with warnings.catch_warnings():
             warnings.simplefilter('ignore')
-            return core.attempt(E.process_samples_table, stab, W['itab'], mef_transform_fxns=W['fx'], beads_table=W['btab'],
-                                base_dir=base, verbose=False, plot=False)
+            return core.attempt(E.process_samples_table, stab, Wx['itab'], mef_transform_fxns=Wx['fx'], beads_table=Wx['btab'],
+                                base_dir=Wx['base'], verbose=False, plot=False)
 
-    def single_ref(r):
-        key = repr(sorted(r.items(), key=lambda kv: kv[0]))
+    def single_ref(r, Wx=None):
+        Wx = Wx or W
+        key = repr(sorted(r.items(), key=lambda kv: kv[0])) + ('#int' if Wx is W2 else '')
         if key not in single:
-            o = run_table(table([r]))
+            o = run_table(table([r], Wx['idmap']), Wx)
             single[key] = None if o.raised or isinstance(o.value['R0'], Exception) else fp(o.value['R0'], ident=False)
         return single[key]
     maxrows = 2 if ctx.tier == 'quick' else 3
@@ -177,8 +187,13 @@ def run(ctx):
         hs = [W['healthy'][int(rng.integers(len(W['healthy'])))] for _ in assign]
         # beads-related faults need a healthy row that reports MEF on FL1; all pool rows allow switching u1 to MEF
         rows = [apply_fault(h, k, int(rng.integers(len(MISSING_PATHS)))) for h, k in zip(hs, assign)]
-        stab = table(rows)
-        o = run_table(stab)
+        # every other random table (and the two-row exhaustive tables whose second row is healthy) in the world whose beads
+        # are identified by numbers
+        Wc = W2 if ((cid[0] == 'rnd' and cid[1] % 2 == 1) or (cid[0] == 'ex' and cid[1] == 2 and cid[-1] == 0 and cid[2] % 2 == 1)) else W
+        if Wc is W2:
+            ctx.counters['chk:numeric-beads-ids'] += 1
+        stab = table(rows, Wc['idmap'])
+        o = run_table(stab, Wc)
         ctx.counters['chk:no-escape'] += 1
         d = dict(assignment=[k or 'none' for k in assign], rows=rows)
         if not ctx.check(not o.raised, 'exception-escapes-batch', cid, exc=core.tb_str(o.exc)[-500:] if o.raised else None, **d):
@@ -193,7 +208,7 @@ def run(ctx):
                 continue
             if k is None:
                 ctx.counters['chk:isolation'] += 1
-                ref = single_ref(r)
+                ref = single_ref(r, Wc)
                 if ref is None:
                     ctx.note('single-row reference failed (harness)')
                     continue
@@ -245,7 +260,7 @@ def run(ctx):
         # row permutation: same per-row results
         if len(rows) >= 2 and (cid[0] == 'rnd' or cid[-1] == 0):
             perm = [int(x) for x in rng.permutation(len(rows))]
-            o2 = run_table(table([rows[p] for p in perm]))
+            o2 = run_table(table([rows[p] for p in perm], Wc['idmap']), Wc)
             if ctx.check(not o2.raised, 'exception-escapes-batch', cid, permuted=True):
                 ok = True
                 for newi, p in enumerate(perm):
